@@ -5,6 +5,8 @@ Import ListNotations.
 
 Definition snd_ok_opt (c : option cond) : bool :=
   match c with Some c => snd_ok true c | None => true end.
+Definition qfree_opt (c : option cond) : bool :=
+  match c with Some c => qfree c | None => true end.
 
 Lemma in_product {A} (ls : list (list A)) : forall row,
   In row (product ls) <-> Forall2 (fun v l => In v l) row ls.
@@ -41,8 +43,6 @@ Section Run.
       + apply in_map_iff in Hin as (w & [= <- <-] & Hw). eauto.
     - apply in_map_iff in Hin as ([b2 v2] & [= <- <-] & H2). simpl. exact (IH _ _ _ H2).
   Qed.
-
-  Definition upd (rho : asg) (x : var) (w : val) : asg := fun y => if Nat.eqb y x then w else rho y.
 
   Lemma select_complete sels b rho :
     extends rho b -> (forall x, In x (flat_map opnd_vars sels) -> In (rho x) (D x)) ->
@@ -98,14 +98,14 @@ Section Run.
   Qed.
 
   (* ---------- whole queries ---------- *)
-  Theorem run_complete q row : answer W D q row -> In row (run W D q).
+  Theorem run_complete q row : qfree_opt (q_cond q) = true -> answer W D q row -> In row (run W D q).
   Proof.
-    intros (rho & Hd & Hs & ->). unfold run. apply in_flat_map.
+    intros Q (rho & Hd & Hs & ->). unfold run. apply in_flat_map.
     assert (Hsel : forall x, In x (flat_map opnd_vars (q_sels q)) -> In (rho x) (D x)).
     { intros x Hx. apply Hd. unfold query_vars. apply in_or_app. auto. }
     destruct (q_cond q) as [c|] eqn:Ec; simpl in *.
-    - destruct (eval_complete W D c [] rho (extends_nil rho)) as (b' & H1 & He).
-      + intros x Hx. apply Hd. unfold query_vars. rewrite Ec. apply in_or_app. auto.
+    - destruct (eval_complete W D c Q [] rho (extends_nil rho)) as (b' & H1 & He).
+      + intros x Hx. apply Hd. unfold query_vars. rewrite Ec. apply in_or_app. right. now rewrite qfree_fv.
       + rewrite Hs in H1. simpl in H1. exists b'. split.
         * apply in_map_iff. exists (b', false). split; auto. apply filter_In. auto.
         * apply select_complete; auto.
@@ -122,11 +122,11 @@ Section Run.
     In row (run W D q) -> answer W D q row.
   Proof.
     intros Hok Hnd Hne Hin. unfold run in Hin. apply in_flat_map in Hin as (b1 & Hb1 & Hrow).
-    assert (Hb : b_ok D b1 /\ forall rho, extends rho b1 -> sat_opt W rho (q_cond q) = true).
+    assert (Hb : b_ok D b1 /\ forall rho, extends rho b1 -> sat_opt W D rho (q_cond q) = true).
     { destruct (q_cond q) as [c|]; simpl in *.
       - apply in_map_iff in Hb1 as ([b f] & <- & Hf). apply filter_In in Hf as [Hf Ht].
         simpl in *. destruct f; [discriminate|]. split.
-        + eapply eval_bok; eauto. apply b_ok_nil.
+        + eapply eval_bok; eauto. eapply snd_ok_qfree; eauto. apply b_ok_nil.
         + intros rho He. eapply (eval_sound W D c true); eauto.
       - destruct Hb1 as [<-|[]]. split; auto. apply b_ok_nil. }
     destruct Hb as [Hb Hsat].
@@ -144,5 +144,8 @@ Section Run.
     NoDup (flat_map opnd_vars (q_sels q)) ->
     (forall x, In x (query_vars q) -> D x <> []) ->
     forall row, In row (run W D q) <-> answer W D q row.
-  Proof. intros H1 H2 H3 row. split; [apply run_sound; auto | apply run_complete]. Qed.
+  Proof.
+    intros H1 H2 H3 row. split; [apply run_sound; auto | apply run_complete].
+    destruct (q_cond q); simpl in *; auto. eapply snd_ok_qfree; eauto.
+  Qed.
 End Run.
